@@ -71,6 +71,14 @@ Theorem C15_snapshot_parseable_refuted :
 Proof. exact snapshot_with_trailers_unparseable. Qed.
 Print Assumptions C15_snapshot_parseable_refuted.
 
+(* The snapshot (repaired or not, any options) starts with the start line of
+   the message, byte for byte. *)
+Theorem C15_snapshot_start_line : forall legacy o m,
+  no_cr (m_start m) = true ->
+  first_line (v_message (fst (snapshot_gen legacy o m))) = Some (m_start m).
+Proof. exact snapshot_first_line. Qed.
+Print Assumptions C15_snapshot_start_line.
+
 (* the text logger logs exactly those bytes *)
 Theorem C15_text_log_is_snapshot : forall ho m,
   snd (run_logger (LText ho false) false m) =
@@ -91,7 +99,8 @@ Theorem C15_oracle_is_the_property : forall skip m o,
      h ++ b ++ t = full /\ exists p, h = p ++ crlf ++ crlf) /\
   (forall r, ob_reparse o = Some r -> option_map canon r = Some (canon m)) /\
   (skip = true -> ob_records o = 0%nat) /\
-  ob_err o = false.
+  ob_err o = false /\
+  (forall snap ref, ob_startline o = Some (snap, ref) -> snap = ref).
 Proof. exact c15_ok_iff. Qed.
 Print Assumptions C15_oracle_is_the_property.
 
